@@ -84,6 +84,12 @@ def perturb(kind, g, d):
                     load_mrf(DEFAULT_IRF_NAME, du, **kw)
                 except (SystemExit, RuntimeError):
                     pass
+    elif kind == 'custom-model':           # another model in the same process customises its own count-spectrum sampling (documented hook)
+        from ixpeobssim.srcmodel.roi import xPointSource
+        from ixpeobssim.srcmodel.spectrum import power_law
+        from ixpeobssim.srcmodel.polarization import constant
+        other = xPointSource('other', 10., 10., power_law(1., 2.), constant(0.1), constant(0.))
+        other.set_count_spectrum_params(500, 3, 1)
     elif kind == 'charging-sim':           # a simulation with GEM charging on (it integrates the charging maps of that DU)
         obssim('toy_point_source.py', int(g.integers(1, 10 ** 6)), (int(g.integers(1, 4)),), d, 'chrg%d' % int(g.integers(0, 10 ** 6)), duration=100., charging=True, chrgtstep=50.)
     elif kind == 'smearing-matrix':
@@ -96,7 +102,7 @@ def perturb(kind, g, d):
 
 
 def histories_obssim(chk, g, d):
-    kinds = ['rng', 'other-sim', 'other-irf', 'other-flavour-irf', 'charging-sim', 'smearing-matrix', 'cold', 'reseed']
+    kinds = ['rng', 'other-sim', 'other-irf', 'other-flavour-irf', 'custom-model', 'charging-sim', 'smearing-matrix', 'cold', 'reseed']
     for config in (['toy_point_source.py', 'toy_periodic_source.py'] if chk.tier == 'quick' else ['toy_point_source.py', 'toy_periodic_source.py', 'toy_disk.py', 'toy_point_source_bkg.py']):
         seed = int(g.choice([0, 1, int(g.integers(2, 10 ** 6))]))
         clear_caches()
@@ -106,7 +112,8 @@ def histories_obssim(chk, g, d):
             chk.fail('impl', '%s seed %d: two detector units produced identical event tables (same stream)' % (config, seed), dict(oracle='du-streams', config=config, seed=seed))
         fp0 = irf_fingerprint()
         for j in range(2 if chk.tier == 'quick' else 5):
-            hist = [str(x) for x in g.choice(kinds, int(g.integers(2, 4)), replace=False)]
+            # the first re-run goes through every cheap kind of earlier activity, the others through a random few
+            hist = ['rng', 'other-irf', 'other-flavour-irf', 'custom-model', 'reseed'] if j == 0 else [str(x) for x in g.choice(kinds, int(g.integers(2, 4)), replace=False)]
             for k in hist:
                 perturb(k, g, d)
             got, _ = obssim(config, seed, (1, 2, 3), d, 'rerun%d' % j)
@@ -135,7 +142,7 @@ def histories_options(chk, g, d):
     from ixpeobssim.irf import load_arf, load_mrf, DEFAULT_IRF_NAME
     seed = int(g.integers(1, 10 ** 6))
     du = int(g.integers(1, 4))
-    for opt in (dict(grayfilter=True), dict(charging=True, chrgtstep=100.)):
+    for opt in (dict(grayfilter=True), dict(charging=True, chrgtstep=100.), dict(onorbitcalib=True, octis=[(81., 86.), (87., 92.), (93., 98.)])):
         clear_caches()
         ref, _ = obssim('toy_point_source.py', seed, (du,), d, 'optref', duration=200., **opt)
         chk.case(dict(op='obssim', options=opt, seed=seed, du=du, history='cold'), nontrivial=False)
@@ -146,6 +153,8 @@ def histories_options(chk, g, d):
                 load_arf(DEFAULT_IRF_NAME, du); load_mrf(DEFAULT_IRF_NAME, du)          # the standard flavour first, then the gray run
                 obssim('toy_point_source.py', seed + 1 + j, (du,), d, 'optstd%d' % j, duration=100.)
                 hist.append('standard responses and a standard run of the same DU first')
+            elif 'onorbitcalib' in opt:
+                hist.append('the same run with the on-orbit calibration source (Cal C image) immediately before')
             else:
                 hist.append('the same charging run immediately before')
             got, _ = obssim('toy_point_source.py', seed, (du,), d, 'optrerun%d' % j, duration=200., **opt)
